@@ -535,7 +535,6 @@ func (w *world) exec(a Action) (note string, err error) {
 			return "", e
 		}
 		c.SelfSendBlock(qc, 0)
-		c.cpDone = true
 	case "Pacemaker":
 		if b.Phase == bft.RoundInterrupt {
 			c.fire()
